@@ -34,7 +34,7 @@ def main():
             used.append('%s: %s' % (m.group(1), m.group(2)))
         if kind == 'benign':
             used = []
-            for m in re.finditer(r'^\| ([A-Z]%s) \| (.*?) \|' % pid[1:], design, re.M):
+            for m in re.finditer(r'^\| ([BDE]%s) \| (.*?) \|' % pid[1:], design, re.M):
                 used.append('%s: %s' % (m.group(1), m.group(2)))
         with open('/tmp/wt/used_%s.txt' % pid, 'w') as f:
             f.write('\n'.join(used) + '\n')
